@@ -159,7 +159,7 @@ func init() {
 				}
 				// writes to documents never touch the definitions of the indexes, and a delete never fails
 				switch kind := callKind(last); kind {
-				case "InsertOne", "InsertMany", "UpdateOne", "UpdateMany", "ReplaceOne", "DeleteOne", "DeleteMany", "BulkWrite", "FindOneAndUpdate":
+				case "InsertOne", "InsertMany", "UpdateOne", "UpdateMany", "ReplaceOne", "DeleteOne", "DeleteMany", "BulkWrite", "FindOneAndUpdate", "Reload":
 					if ns := w.Engine.Catalog().Namespaces[lungo.Handle{"d", "c"}]; ns != nil && p.hasNS {
 						for n, before := range p.indexes {
 							ix := ns.Indexes[n]
